@@ -46,15 +46,30 @@ type material struct {
 	chainKey  *ecdsa.PrivateKey
 	chainCert *x509.Certificate // leaf, signed by the intermediate
 
-	files map[string]string
-	cache tls.ClientSessionCache
+	// the root-kinds sub-workload: certificates supplied as roots that are no certificate authorities
+	pinnedCert *x509.Certificate // a self-signed SERVER certificate (alpha.test + 127.0.0.1) without the CA flag, served by listener s3
+	pinned     tls.Certificate
+	pinnedPEM  []byte
+	bareCert   *x509.Certificate // a self-signed certificate without basic constraints
+
+	files   map[string]string
+	content map[string][]byte // what was written to each file (path -> bytes): lets the monitor tell a vanished file from a library fault
+	cache   tls.ClientSessionCache
+
+	// the rotation sub-workload: while rot is non-nil every named file slot of kind k resolves to rot[k], ONE path
+	// per kind whose content the workload replaces between calls
+	rot map[string]string
 }
 
 // path maps a slot content name to a file path; kind is crt | key | ca.
 func (mt *material) path(name, kind string) string {
-	switch name {
-	case "":
+	if name == "" {
 		return ""
+	}
+	if mt.rot != nil {
+		return mt.rot[kind]
+	}
+	switch name {
 	case "unreadable":
 		return filepath.Join(mt.dir, "does-not-exist-"+kind+".pem")
 	case "garbage":
@@ -72,6 +87,10 @@ func (mt *material) pool(name string) *x509.CertPool {
 		return p
 	case "empty":
 		return x509.NewCertPool()
+	case "pinned":
+		p := x509.NewCertPool()
+		p.AddCert(mt.pinnedCert)
+		return p
 	case "system+ca2":
 		p, err := x509.SystemCertPool()
 		if err != nil || p == nil {
@@ -140,13 +159,13 @@ var (
 	sysPinned bool
 )
 
-func pinSystemRoots() {
+func pinSystemRoots(base string) {
 	sysOnce.Do(func() {
 		var pemBytes []byte
 		if sysCA, sysCAKey, pemBytes, sysErr = mintCA("verif system root"); sysErr != nil {
 			return
 		}
-		dir, err := os.MkdirTemp("", "verif-c18-sys-")
+		dir, err := privateDir(base, "sys-")
 		if err != nil {
 			sysErr = err
 			return
@@ -169,13 +188,40 @@ func pinSystemRoots() {
 	})
 }
 
-func mint() (mt *material, err error) {
-	pinSystemRoots()
+// privateDir creates a fresh directory (mode 0700) for the monitor's files. It lives under base, the run directory of
+// this check (<VERIF_OUT>/run/c18-material, created and owned by the monitor), not directly in the shared $TMPDIR where a
+// clean-up job of somebody else could remove it; only when base cannot be used it falls back to a private directory
+// under $TMPDIR.
+func privateDir(base, prefix string) (string, error) {
+	if base != "" {
+		if err := os.MkdirAll(base, 0o700); err == nil {
+			if d, err := os.MkdirTemp(base, prefix); err == nil {
+				return d, nil
+			}
+		}
+	}
+	return os.MkdirTemp("", "verif-c18-"+prefix)
+}
+
+// intact reports whether every file the monitor wrote is still there with the bytes it wrote (the rotating
+// files of the rotation sub-workload are not part of the set).
+func (mt *material) intact() bool {
+	for p, want := range mt.content {
+		got, err := os.ReadFile(p)
+		if err != nil || string(got) != string(want) {
+			return false
+		}
+	}
+	return true
+}
+
+func mint(base string) (mt *material, err error) {
+	pinSystemRoots(base)
 	if sysErr != nil {
 		return nil, sysErr
 	}
-	mt = &material{files: map[string]string{}, cache: tls.NewLRUClientSessionCache(8)}
-	if mt.dir, err = os.MkdirTemp("", "verif-c18-"); err != nil {
+	mt = &material{files: map[string]string{}, content: map[string][]byte{}, cache: tls.NewLRUClientSessionCache(8)}
+	if mt.dir, err = privateDir(base, "w-"); err != nil {
 		return nil, err
 	}
 	defer func() {
@@ -237,6 +283,7 @@ func mint() (mt *material, err error) {
 	write := func(name string, data []byte) error {
 		p := filepath.Join(mt.dir, name)
 		mt.files[name] = p
+		mt.content[p] = append([]byte{}, data...)
 		return os.WriteFile(p, data, 0o600)
 	}
 	certPEM := func(c *x509.Certificate) []byte {
@@ -337,6 +384,46 @@ func mint() (mt *material, err error) {
 	}
 	if err = write("garbage", []byte("this is not PEM\x00\x01\x02 -----BEGIN NOTHING-----\nAAAA\n")); err != nil {
 		return nil, err
+	}
+	// roots that are no certificate authorities (sub-workload "root kinds"): a self-signed server certificate that a
+	// client pins as its only root, and a self-signed certificate without basic constraints
+	pk, err := ecdsa.GenerateKey(elliptic.P256(), rand.Reader)
+	if err != nil {
+		return nil, err
+	}
+	pt := template("alpha.test")
+	pt.Subject.Organization = []string{"verif c18 pinned self-signed server"}
+	pt.KeyUsage = x509.KeyUsageDigitalSignature
+	pt.ExtKeyUsage = []x509.ExtKeyUsage{x509.ExtKeyUsageServerAuth}
+	pt.DNSNames = []string{"alpha.test"}
+	pt.IPAddresses = []net.IP{net.IPv4(127, 0, 0, 1)}
+	pder, err := x509.CreateCertificate(rand.Reader, pt, pt, &pk.PublicKey, pk)
+	if err != nil {
+		return nil, err
+	}
+	if mt.pinnedCert, err = x509.ParseCertificate(pder); err != nil {
+		return nil, err
+	}
+	mt.pinned = tls.Certificate{Certificate: [][]byte{pder}, PrivateKey: pk, Leaf: mt.pinnedCert}
+	mt.pinnedPEM = certPEM(mt.pinnedCert)
+	if err = write("pinned.ca", mt.pinnedPEM); err != nil {
+		return nil, err
+	}
+	bk, err := ecdsa.GenerateKey(elliptic.P256(), rand.Reader)
+	if err != nil {
+		return nil, err
+	}
+	bt := template("verif root without basic constraints")
+	bt.KeyUsage = x509.KeyUsageCertSign | x509.KeyUsageDigitalSignature
+	bder, err := x509.CreateCertificate(rand.Reader, bt, bt, &bk.PublicKey, bk)
+	if err != nil {
+		return nil, err
+	}
+	if mt.bareCert, err = x509.ParseCertificate(bder); err != nil {
+		return nil, err
+	}
+	if mt.pinnedCert.IsCA || mt.bareCert.IsCA || mt.bareCert.BasicConstraintsValid {
+		return nil, errors.New("c18: the minted non-CA roots came out flagged as certificate authorities")
 	}
 	return mt, nil
 }
